@@ -125,6 +125,23 @@ def check_next(ts, now, p, du, out, stats, fps, sched=None):
         out.append(_viol("next_not_on_grid", "grid", ctx + f" sched={sched}"))
     if not (now < nxt <= now + p):
         out.append(_viol("next_window", "window", ctx))
+    # the successor actually handed to the broker (what a reschedule stores) follows the same arithmetic: judged against
+    # the ORIGINAL message's time base, because the copy's own timestamp is the restarted clock
+    prep = getattr(params, "_prepare_reschedule", None)
+    if prep is None:
+        stats["reschedule_helper_absent"] += 1  # private helper renamed: the end-to-end path is C06's
+        prep = lambda: params  # noqa: E731
+    try:
+        succ = prep()
+    except Exception as exc:  # noqa: BLE001
+        out.append(_viol("next_raises", "reschedule", f"{ctx}: {exc!r}"))
+        return
+    stats["reschedule_evals"] += 1
+    snx = succ.delay.next_execution_time if succ is not params else nxt
+    if snx is None or snx != nxt:
+        out.append(_viol("next_not_on_grid", "reschedule", ctx + f": the rescheduled copy carries next_execution_time={snx}, compute_next_execution_time of the message gave {nxt}"))
+    elif not any((snx - b) % p == timedelta(0) for b in bases):
+        out.append(_viol("next_not_on_grid", "reschedule", ctx + f" successor={snx}"))
     rel = "before" if now < ts else "at" if now == ts else "after"
     ongrid = (now - ts) % p == timedelta(0)
     if now < ts:
